@@ -14,7 +14,6 @@ Contracts (from the property statement, evaluated on the producer's log and on t
   post_timeout_iff        fetch ends with InterestTimeout <=> some requested name lost retry_times responses in a row
   post_fault_propagates   a Nack / ValidationFailure delivered by the producer ends the fetch with exactly that exception
 """
-import itertools
 import random
 
 from ndn.app_support.segment_fetcher import segment_fetcher
